@@ -631,9 +631,7 @@ func (w *world) block(st simcore.Step, dt time.Duration, inBurst bool) {
 			run.Probe("gauge-distribution-to-several-receivers")
 		}
 	}
-	if countEvents(ra.Events, "unlock") > 0 {
-		run.Probe("lock-matured-in-end-block")
-	}
+
 	if w.compare("B", ra, rb, w.B, kept) {
 		return
 	}
